@@ -36,6 +36,7 @@ TARGETS = [
     ("unprepared-twice", "N_UnpreparedTwice", "PL1", 2, 1, 0),
     ("unprepared-inflight", "N_UnpreparedInflight", "PL1", 2, 1, 0),
     ("batch-thrash", "N_BatchThrash", "PS3", 1, 1, 0),
+    ("batch-unprepared-cached", "N_BatchThrash", "PS3", 2, 1, 0),
     ("arity", "N_Arity", "PL5", 2, 0, 0),
 ]
 
@@ -57,6 +58,7 @@ KEYS = {
     "UnpreparedNotReprepared": ("unprepared-not-reprepared", "an id the node rejected twice as UNPREPARED was sent a third time: the driver does not prepare again"),
     "UnpreparedNotRecovered": ("unprepared-not-recovered", "UNPREPARED was returned to the caller instead of preparing again"),
     "ResultMetaMismatch": ("result-meta-mismatch", "rows were decoded with result metadata that does not belong to the executed id"),
+    "BindMetaMismatch": ("bind-meta-mismatch", "a binding callback was handed the id / bind metadata of another statement"),
     "CapExceeded": ("cap-exceeded", "the prepared-statement cache exceeded its configured size"),
     "WaiterNotWoken": ("waiter-not-woken", "an executor waiting on an answered PREPARE never returned"),
     "Panic": ("executor-panic", "an execution panicked inside the driver instead of returning a result or an error"),
@@ -88,7 +90,10 @@ def _fix(x):
     return {} if isinstance(x, list) else x
 
 
-def translate(plan, steps, name, n, maxlru, uniq):
+QVIA = ["args", "bind", "qbind"]
+
+
+def translate(plan, steps, name, n, maxlru, uniq, flip=0):
     """A behaviour of Gen_Prepare (list of (action, projection)) -> commands for the Go replayer, each with the
     observable state TLC computed for the moment the driver has come to rest after it."""
     plan = _fix(plan)
@@ -96,7 +101,12 @@ def translate(plan, steps, name, n, maxlru, uniq):
     execs = []
     for e in sorted(plan):
         p = plan[e]
-        execs.append(dict(e=emap[e], kind="batch" if len(p["items"]) > 1 else "query", items=p["items"],
+        batch = len(p["items"]) > 1
+        # how each statement enters the query / batch is not the model's business (the property does not
+        # distinguish): every way the API offers is rotated through the behaviours
+        items = [dict(s=it["s"], n=it["n"], via=(["bind", "args"][(i + flip) % 2] if batch else QVIA[(n + emap[e] + flip) % 3]))
+                 for i, it in enumerate(p["items"])]
+        execs.append(dict(e=emap[e], kind="batch" if batch else "query", items=items, toklast=bool((n + flip) % 2),
                           conn=[p["conn"][0], KS[p["conn"][1]]]))
     hosts = max(int(p["conn"][0][1:]) for p in plan.values())
     conns = 2 if any(p["conn"][1] == "k2" for p in plan.values()) else 1
@@ -125,7 +135,15 @@ def translate(plan, steps, name, n, maxlru, uniq):
         if a["a"] == "Forget":
             c["key"] = [a["k"][0], KS[a["k"][1]], a["k"][2]]
         out.append(c)
-    return dict(n=n, name=name, max=maxlru, uniq=uniq, hosts=hosts, conns=conns, execs=execs, steps=out)
+    return dict(n=n, name=name + ("/flip" if flip else ""), max=maxlru, uniq=uniq, hosts=hosts, conns=conns, execs=execs, steps=out)
+
+
+def variants(plan, steps, name, scenarios, maxlru, uniq):
+    """One scenario per behaviour; behaviours with a batch are replayed a second time with Batch.Query and
+    Batch.Bind swapped."""
+    scenarios.append(translate(plan, steps, name, len(scenarios) + 1, maxlru, uniq))
+    if any(len(p["items"]) > 1 for p in _fix(plan).values()):
+        scenarios.append(translate(plan, steps, name, len(scenarios) + 1, maxlru, uniq, flip=1))
 
 
 def _target(ctx, t):
@@ -263,8 +281,8 @@ def run(ctx):
 
     # ---- 1. everything TLC and the Go compiler can do side by side
     fut_build = pool.submit(vf.build_gotest, ctx, ".", ["common", "c14"])
-    # quick tier: the five interleaving targets; batches and arity are also reached by the random walks
-    fut_targets = [pool.submit(_target, ctx, t) for t in (TARGETS[:5] if quick else TARGETS)]
+    # quick tier: the interleaving targets and the batch that meets UNPREPARED; arity is also reached by the walks
+    fut_targets = [pool.submit(_target, ctx, t) for t in (TARGETS[:7] if quick else TARGETS)]
     fut_walks = [pool.submit(_walks, ctx, lru, uq, nwalk // 2, ctx.seed * 7919 + lru) for lru, uq in ((1, "TRUE"), (2, "FALSE"))]
     fut_models = [pool.submit(_model_pass, ctx, m, 4 if quick else 6, 900 if quick else 3000, "4g" if quick else "8g")
                   for m in models]
@@ -273,13 +291,13 @@ def run(ctx):
     scenarios = []
     for f in fut_targets:
         t, r, plan, steps = f.result()
-        scenarios.append(translate(plan, steps, "target:" + t[0], len(scenarios) + 1, t[3], True))
+        variants(plan, steps, "target:" + t[0], scenarios, t[3], True)
     ntarget = len(scenarios)
     for f in fut_walks:
         lru, uq, ws = f.result()
         for w in ws:
             steps = [(s["act"], s["st"]) for s in w["steps"]]
-            scenarios.append(translate(w["plan"], steps, "walk:lru%d" % lru, len(scenarios) + 1, lru, uq == "TRUE"))
+            variants(w["plan"], steps, "walk:lru%d" % lru, scenarios, lru, uq == "TRUE")
     scenarios = [s for s in scenarios if s["steps"]]
     ctx.log("scenarios from TLC: %d targets + %d walks, %d commands" % (ntarget, len(scenarios) - ntarget,
                                                                        sum(len(s["steps"]) for s in scenarios)))
